@@ -145,8 +145,9 @@ func (vm *Vm) Run(ctx context.Context, b []byte) ([]byte, error) {
 		if waitChange {
 			vm.st.ResetFlag(state.FLAG_INMATCH)
 			vm.pg = vm.pg.WithError(nil)
-			vm.pg.Reset()
-			vm.mn.Reset()
+			// same fresh render state as after a move: a menu object that is merely emptied
+			// keeps the page count and browse settings of the page rendered before the HALT
+			vm.Reset()
 		}
 
 		_ = vm.st.SetFlag(state.FLAG_DIRTY)
